@@ -248,6 +248,35 @@ def run(chk):
                 chk.violation('%s: the name-list %s decodes to %s and re-encodes to %r' % (vcls.__name__, ','.join(names), got if isinstance(got, str) else ','.join(got), back),
                               {'class': vcls.__name__, 'names': names, 'decoded': got, 'kind': 'ssh-names'}, None, True)
     chk.coverage['ssh_name_lists'] = nn
+    # string-coded curve identifiers of ECDSA host keys (RFC 5656 6.1 / 10.1): every identifier of the table decodes to its member and
+    # the key re-encodes under the same identifier
+    try:
+        from cryptodatahub.ssh.algorithm import SshEllipticCurveIdentifier
+        from cryptoparser.ssh.key import SshHostKeyECDSA
+        def s4(b):
+            return len(b).to_bytes(4, 'big') + b
+        ncurve = 0
+        for m in SshEllipticCurveIdentifier:
+            code = m.value.code.encode('ascii')
+            size = (m.value.named_group.value.size + 7) // 8
+            point = b'\x04' + bytes([0x11] * size) + bytes([0x22] * size)
+            # the library has host key algorithm names for the three NIST curves only and does not tie the name to the identifier
+            alg = b'ecdsa-sha2-' + code if code.startswith(b'nistp') else b'ecdsa-sha2-nistp256'
+            blob = s4(alg) + s4(code) + s4(point)
+            try:
+                key = SshHostKeyECDSA.parse_exact_size(blob)
+            except Exception:  # pylint: disable=broad-except
+                continue        # not a host key algorithm of the library, or a point asn1crypto cannot hold
+            ncurve += 1
+            back = bytes(key.compose())
+            if back != blob and nv < 16:
+                nv += 1
+                got = back[4 + len(alg) + 4:][:40]
+                chk.violation('an ECDSA host key under the curve identifier %s re-encodes under another identifier (%r...)' % (m.value.code, got),
+                              {'identifier': m.value.code, 'blob': blob.hex(), 'composed': back.hex(), 'kind': 'curve-identifier'}, None, True)
+        chk.coverage['curve_identifiers'] = ncurve
+    except ImportError:
+        pass
     chk.coverage['evaluations'] = len(lines)
     chk.coverage['distinct_nontrivial'] = len(nontrivial)
     chk.coverage['traces_validated_against_impl'] = len(lines)
@@ -276,6 +305,12 @@ def replay(path):
         hits = [x for x in alias_failures() if x[0] == r['enum'] and x[3] == r['code']]
         print('aliases now: %s' % hits)
         ok = not hits
+    elif r.get('kind') == 'curve-identifier':
+        from cryptoparser.ssh.key import SshHostKeyECDSA
+        blob = bytes.fromhex(r['blob'])
+        back = bytes(SshHostKeyECDSA.parse_exact_size(blob).compose())
+        print('%s\n re-encoded: %s' % (blob.hex()[:120], back.hex()[:120]))
+        ok = back == blob
     elif r.get('kind') == 'ssh-names':
         from cryptoparser.ssh import subprotocol as sp
         vcls = getattr(sp, r['class'])
